@@ -59,6 +59,11 @@ def _gen_ninja(variant, harnesses):
     w('build basic_main.o: cc %s/basic/bbcbasic_to_text.c' % REPO)
     w('build bbcbasic_to_text: linkc basic_main.o %s' % ' '.join(bobjs))
     targets = ['bbcbasic_to_text']
+    if os.path.exists(os.path.join(VERIF, 'mc', 'mcb.c')):
+        w('build mc_mcb.o: cc %s/mc/mcb.c' % VERIF)
+        w('  extra = -I%s/basic' % REPO)
+        w('build mcb: linkc mc_mcb.o %s' % ' '.join(bobjs))
+        targets.append('mcb')
     if variant not in C_ONLY:
         libobjs = []
         for s in _dfs_sources():
